@@ -502,10 +502,10 @@ Qed.
    harness/gen/gen_c06_code.py into the language of Model/ReexportIR.v.  Interpreting that code IS the model's
    reparent / unregister / register, for every state and all arguments. *)
 Theorem C07_code_registry_walks_is_model :
-  forall (f : nat) (s : state) (o : oid),
-    ReexportIR.pre_ir ReexportCode.reexport_code f s o = Some (unregister s (subtree_f f s o)) /\
-    ReexportIR.post_ir ReexportCode.reexport_code f s o = Some (register s (subtree_f f s o)).
-Proof. intros f s o. split; [apply ReexportIRProofs.pre_ir_eq|apply ReexportIRProofs.post_ir_eq]. Qed.
+  forall (s : state) (o : oid),
+    ReexportIR.pre_ir ReexportCode.reexport_code (dfuel s) s o = Some (unregister s (subtree s o)) /\
+    ReexportIR.post_ir ReexportCode.reexport_code (dfuel s) s o = Some (register s (subtree s o)).
+Proof. intros s o. split; [apply ReexportIRProofs.pre_ir_eq|apply ReexportIRProofs.post_ir_eq]. Qed.
 
 (* the object has a parent that can contain imports (Python raises at the `assert` otherwise) *)
 Theorem C07_code_reparent_is_model :
